@@ -3,6 +3,7 @@ package main
 import (
 	"fmt"
 	"go/ast"
+	"go/parser"
 	"go/token"
 	"sort"
 	"strconv"
@@ -651,11 +652,28 @@ func c02Smem(o *c17Out) {
 	c17Is(su, "executeSMEMLoad", fd.Body.List[8], "bytesLeft := uint64(byteSize)")
 	o.fn(su, "smemTimingAddr", "scalarunit.go `executeSMEMLoad`: `start := "+c17Flat(st)+"` — the address of the first byte read (`x &^ K` is written `x - (x &&& K)`)",
 		c17N("baseVal", "offsetVal"), "Nat", nil, func(t *c17Tr) string { return c02AndNot(su, "executeSMEMLoad, start", t, st) })
+	// DstSGPR: `smemDstReg(inst.Data.Register, <dword offset of the chunk>)`; for an SGPR destination
+	// smemDstReg returns `insts.SReg(data.RegIndex() + dwordOffset)`, otherwise the register that follows
+	// SDATA in the register list (vcc_lo -> vcc_hi, …)
 	dst := c10KeyValue(fd, su, "DstSGPR", 0)
-	if c10Norm(nodeString(dst)) != "insts.SReg(regIndex+int((curr-start)/4))" {
-		c02Refuse(su, "executeSMEMLoad: DstSGPR is `%s`, expected `insts.SReg(regIndex + int((curr-start)/4))`", c17Flat(dst))
+	dcall, okc := dst.(*ast.CallExpr)
+	if !okc || len(dcall.Args) != 2 || c10Norm(nodeString(dcall.Fun)) != "smemDstReg" ||
+		c10Norm(nodeString(dcall.Args[0])) != "inst.Data.Register" || c10Norm(nodeString(dcall.Args[1])) != "int((curr-start)/4)" {
+		c02Refuse(su, "executeSMEMLoad: DstSGPR is `%s`, expected `smemDstReg(inst.Data.Register, int((curr-start)/4))`", c17Flat(dst))
 	}
-	o.ex(su, "smemChunkReg", "scalarunit.go `executeSMEMLoad`: the first SGPR of the chunk that starts at `curr` (DstSGPR)", c17N("regIndex", "curr", "start"), "Nat", nil, dst.(*ast.CallExpr).Args[0])
+	sd := c10Func(fsu, su, "", "smemDstReg")
+	sds := c17Stmts(su, "smemDstReg", sd.Body, 2)
+	c17Is(su, "smemDstReg", sds[0], "if data.IsSReg() { return insts.SReg(data.RegIndex() + dwordOffset) }")
+	c17Is(su, "smemDstReg", sds[1], "return insts.Regs[data.RegType+insts.RegType(dwordOffset)]")
+	if len(sd.Type.Params.List) != 2 || nodeString(sd.Type.Params.List[0].Names[0]) != "data" || nodeString(sd.Type.Params.List[1].Names[0]) != "dwordOffset" {
+		c02Refuse(su, "smemDstReg: parameters are not (data, dwordOffset)")
+	}
+	chunkReg, perr := parser.ParseExpr("regIndex + " + nodeString(dcall.Args[1]))
+	if perr != nil {
+		c02Refuse(su, "executeSMEMLoad: cannot rebuild the SGPR index expression: %v", perr)
+	}
+	o.ex(su, "smemChunkReg", "scalarunit.go `executeSMEMLoad` + `smemDstReg`, SGPR destination (`regIndex` = `inst.Data.Register.RegIndex()`): the first SGPR of the chunk that starts at `curr` (DstSGPR = `insts.SReg(data.RegIndex() + dwordOffset)` with dwordOffset = `int((curr-start)/4)`)", c17N("regIndex", "curr", "start"), "Nat", nil, chunkReg)
+	o.c02Raw("smemDstNonSgpr", fmt.Sprintf("/-- scalarunit.go `smemDstReg`, destination that is not an SGPR (VCC, EXEC, M0 …): the statement that returns the register -/\ndef smemDstNonSgpr : String := %s\n\n", leanStr(c17Flat(sds[1]))))
 
 	for _, a := range []struct{ file, recv, suffix string }{{"amd/emu/alu.go", "ALUImpl", ""}, {"amd/emu/cdna3/sop.go", "ALU", "CDNA3"}} {
 		_, f := parseFile(a.file)
